@@ -157,4 +157,4 @@ Definition check_lcase_src (c : lcase) : bool :=
   end.
 
 Definition check_case_src (c : c01case) : bool :=
-  check_case c && match c with LCase c => check_lcase_src c | ICase _ => true end.
+  match c with LCase c => check_lcase_src c | ICase _ => true end.
